@@ -18,15 +18,20 @@ for p in sorted(glob.glob("/verif/seeded/*/meta.json")):
     if m.get("round", 1) != rnd:
         continue
     mid = re.sub(r"-m(\d).*", r"-m\1", m["id"])
-    cb = []
+    yes, later, no = [], [], []
     for chk, txt in sorted(m["caught_by"].items()):
-        if txt.startswith("MISSED by the quick tier at first") or "MISSED" in txt and "after" in txt:
-            cb.append("**%s missed it at first**, catches it after strengthening" % chk)
+        if "MISSED by the quick tier at first" in txt:
+            later.append(chk)
         elif txt.startswith("MISSED"):
-            cb.append("**missed by %s**" % chk)
-        elif txt.startswith("yes"):
-            cb.append(chk)
-        else:
-            cb.append("%s: %s" % (chk, short(txt, 60)))
+            no.append(chk)
+        elif txt.startswith("yes") or "; yes" in txt:
+            yes.append(chk)
+    cb = []
+    if yes:
+        cb.append(", ".join(yes))
+    if later:
+        cb.append("**missed at first, after strengthening: %s**" % ", ".join(later))
+    if no:
+        cb.append("**not reported by %s**" % ", ".join(no))
     note = " (%s)" % short(m["remark"], 220) if m.get("remark") else ""
-    print("| %s %s | %s | %s%s |" % (mid, short(m["what"], 140), short(m["needs"], 200), ", ".join(cb), note))
+    print("| %s %s | %s | %s%s |" % (mid, short(m["what"], 140), short(m["needs"], 200), "; ".join(cb), note))
